@@ -97,6 +97,30 @@ def shape_attrs(d, tag, percent=True, units=True):
     elif tag in ("polyline", "polygon"):
         n = d.int(2, 5)
         a["points"] = " ".join("%s,%s" % (fmtn(num(d, -50, 100)), fmtn(num(d, -50, 100))) for _ in range(n))
+    elif d.chance(1, 4):
+        # compound path data: several subpaths, relative and absolute commands, closed or not, drawing on after a close
+        n_ = lambda lo=-30, hi=40: fmtn(num(d, lo, hi))
+        parts = ["%s%s,%s" % (d.choice("Mm"), n_(-20, 80), n_(-20, 80))]
+        for i in range(d.int(2, 4)):
+            if i:
+                parts.append("%s%s,%s" % (d.choice("mmM"), n_(), n_()))
+            for _ in range(d.int(1, 3)):
+                k = d.choice(["l", "l", "L", "h", "v", "H", "V", "q", "c", "a", "t", "s"])
+                if k in "lLt":
+                    parts.append("%s%s,%s" % (k, n_(), n_()))
+                elif k in "hvHV":
+                    parts.append("%s%s" % (k, n_()))
+                elif k in "qs":
+                    parts.append("%s%s,%s %s,%s" % (k, n_(), n_(), n_(), n_()))
+                elif k == "c":
+                    parts.append("c%s,%s %s,%s %s,%s" % (n_(), n_(), n_(), n_(), n_(), n_()))
+                else:
+                    parts.append("a%s,%s %s %d,%d %s,%s" % (fmtn(num(d, 5, 60)), fmtn(num(d, 5, 60)), fmtn(float(d.choice([0, 30, 90, -45]))), d.below(2), d.below(2), n_(5, 40), n_(5, 40)))
+            if d.chance(2, 3):
+                parts.append(d.choice("zZ"))
+                if d.chance(1, 4):
+                    parts.append("l%s,%s" % (n_(), n_()))
+        a["d"] = " ".join(parts)
     else:
         x0, y0 = num(d, -20, 80), num(d, -20, 80)
         parts = ["M%s,%s" % (fmtn(x0), fmtn(y0))]
